@@ -264,6 +264,42 @@ element built from it carries the converted value (`mK`: scale = 1/1000) -/
 theorem thermal_temperature (v s f : K) (x y : List K) :
     (mkThermal v s f x y).temp = v * s ∧ (mkThermal v s f x y).beamFill = f := ⟨rfl, rfl⟩
 
+/-! ### the element as it is when asked: histories of assignments and queries on one element -/
+
+/-- whatever was assigned to or asked of the element before, a `thermal_source()` query reports the element's
+current temperature and beam filling factor and their pointwise product with the emissivity: the result
+after a history is the result on the element the history leaves behind, and earlier results are unaffected -/
+theorem history_query_current (th : Thermal K) (steps : List (ThStep K)) (w : List K) :
+    thermalHistory C T w th (steps ++ [.query]) =
+      thermalHistory C T w th steps ++ [thermalQuery C T w (steps.foldl Thermal.step th)] := by
+  rw [thermalHistory_append]; rfl
+
+/-- the element a history leaves behind: the last assigned temperature (converted to Kelvin), the last
+assigned beam filling factor, the emissivity it was built with; queries change nothing -/
+theorem history_state (th : Thermal K) (pre post : List (ThStep K)) :
+    ((pre ++ post).foldl Thermal.step th).emis = th.emis ∧
+    (∀ v s, (∀ a ∈ post, ThStep.isSetTemp a = false) →
+      ((pre ++ .setTemp v s :: post).foldl Thermal.step th).temp = v * s) ∧
+    (∀ f, (∀ a ∈ post, ThStep.isSetFill a = false) →
+      ((pre ++ .setFill f :: post).foldl Thermal.step th).beamFill = f) ∧
+    (th.step .query = th) := by
+  refine ⟨foldl_step_emis _ _, ?_, ?_, rfl⟩
+  · intro v s h
+    rw [List.foldl_append, List.foldl_cons, foldl_step_temp_of_none _ _ h]; rfl
+  · intro f h
+    rw [List.foldl_append, List.foldl_cons, foldl_step_fill_of_none _ _ h]; rfl
+
+/-- hence after any history the sampled thermal source is the closed form for the *current* attributes -/
+theorem history_query_planck (hC : C.Pos) (hT : T.Lawful) (th : Thermal K) (steps : List (ThStep K))
+    (w : List K) (hv : validateWavelengths w = .ok ())
+    (ht : 0 < (steps.foldl Thermal.step th).temp) :
+    thermalQuery C T w (steps.foldl Thermal.step th) =
+      ((steps.foldl Thermal.step th).temp, (steps.foldl Thermal.step th).beamFill,
+        .ok (w.map (fun l => planckPhotlam C T l (steps.foldl Thermal.step th).temp * C.srPerArcsec2 *
+          (steps.foldl Thermal.step th).beamFill * th.emis.eval l))) := by
+  unfold thermalQuery
+  rw [thermal_source_sample hC hT _ ht w hv, foldl_step_emis]
+
 /-! ### `from_file`: the header keywords -/
 
 /-- the temperature is read from the keyword the caller names; a missing keyword is a `SynphotError` -/
